@@ -68,6 +68,14 @@ def _gen(rnd):
     while len(R) < L:
         R += rnd.choice(["ATG", "GTG", "TTG", "TAA", "TGA", "TAG", "CAT", "TTA", "TCA", "CTA", "GCC", "AAA", "C", "AG", "T"])
     R = R[:L]
+    if rnd.random() < 0.4:
+        # a soft-masked assembly: runs of lower-case bases (a codon is the same codon in either case)
+        chars = list(R)
+        for _ in range(rnd.randrange(1, 6)):
+            a0 = rnd.randrange(0, L)
+            for i in range(a0, min(L, a0 + rnd.randrange(1, 25))):
+                chars[i] = chars[i].lower()
+        R = "".join(chars)
     par = Parent(id="seqT", sequence=Sequence(R, Alphabet.NT_EXTENDED_GAPPED, id="seqT", type=SequenceType.CHROMOSOME))
     genes, model = [], []
     pos = 4
@@ -126,10 +134,13 @@ def _events(args):
             table = rnd.choice([0, 1, 11])
             step = rnd.choice([1, 5, 10])
             rs = rnd.choice([0, 1, 7, 12345])
+            one_shot = rnd.random() < 0.4
 
             def write():
                 buf = io.StringIO()
-                collection_to_tbl([coll], buf, translation_table=TranslationTable(table), locus_tag_prefix="PFX",
+                # the collections are an Iterable: a list, or something that can be walked only once
+                colls = [coll] if one_shot is False else (c for c in [coll])
+                collection_to_tbl(colls, buf, translation_table=TranslationTable(table), locus_tag_prefix="PFX",
                                   genbank_flavor=GenbankFlavor[flavour], locus_tag_jump_size=step,
                                   submitter_lab_name="LAB", random_seed=rs)
                 return buf.getvalue()
@@ -138,16 +149,17 @@ def _events(args):
                 t1 = write()
                 t2 = write()
             except Exception as ex:
-                ev.append(["tbl", flavour, table, model, list(R), "!" + type(ex).__name__, "seqT", [], step, False])
+                ev.append(["tbl", flavour, table, model, list(R.upper()), "!" + type(ex).__name__, "seqT", [], step, False])
                 continue
             header, feats = read_tbl(t1)
+            header = header if isinstance(header, str) else "<no header line>"
             groups = []
             for f in feats:
                 if f[0] == "gene":
                     groups.append([])
                 if groups:
                     groups[-1].append(f)
-            ev.append(["tbl", flavour, table, model, list(R), header, "seqT", groups, step, t1 == t2])
+            ev.append(["tbl", flavour, table, model, list(R.upper()), header, "seqT", groups, step, t1 == t2])
     return ev
 
 
